@@ -852,6 +852,11 @@ class CSSVariable(CSSFunction):
 
     def _setCssText(self, cssText):
         self._checkReadonly()
+        if self._nestingDepth() >= 30:
+            # (as for any function: refuse instead of RecursionError)
+            self._log.error('%s: Functions nested too deep.' % self.type)
+            self.wellformed = False
+            return
 
         types = self._prods  # rename!
         prods = Sequence(Prod(name='var',
